@@ -485,6 +485,20 @@ def run(tier, seed):
                                 {'kind': 'raw', 'floats': c['floats'], 'vars': c['vars'], 'proof': c['proof'],
                                  'expected': spec_decode(c['floats'], set(c['vars']), c['tokens']), 'got': per_seed[seeds[0]][i]})
         R.sample({'raw': raws[-1]['proof'][:80], 'model': str(mo[-1])[:120]})
+        # the Coq transcription of Appendix B's stream decoder (Codec.appendixB_stream, about which
+        # C15_appendixB_stream_agrees is proved) against the harness oracle, on letter streams incl. malformed ones
+        streams = []
+        for c in raws:
+            if c['proof'].count(')') == 1 and all(ord(ch) < 128 for ch in c['proof']):
+                streams.append(''.join(c['proof'].split(')')[1].split()))
+        streams = sorted(set(streams))
+        so = C.run_lines_parallel(exe, [f'A {enc_s(x)}' for x in streams])
+        for x, o in zip(streams, so):
+            sp = spec_decode([], set(), ['(', ')', x]) if x else ([], [])
+            want = 'N' if sp is None else 'S ' + (','.join(map(str, sp[1])) or '_')
+            R.case(('appendixB-stream', x), True, 'spec-stream:' + ('accepted' if sp is not None else 'rejected'))
+            if o != want:
+                mismatches.append(('coq-spec-vs-harness-oracle', x, o, want))
 
         # ---- (d) whole databases: lexer + parser + converter, several hash seeds ----------------
         rngd = C.rng_for(seed, CID + ':db')
@@ -579,13 +593,22 @@ def replay(path):
         return 0 if model_outcome(m[0]) == impl_outcome(a[0]) else 1
     if rp.get('kind') == 'db':
         rc = 0
+        impl = {}
         for s in sorted({hs, 0, 1, 2, 3}):
             a = run_py_parallel([json.dumps({'k': 'db', 'src': rp['src'], 'lemmas': [lm['name'] for lm in rp['lemmas']]})], s, 1)
+            impl[s] = a[0]
             print(f'implementation PYTHONHASHSEED={s}:', json.dumps(a[0])[:600])
         for lm in rp['lemmas']:
             fl = [tuple(x) for x in rp['floats']]
             m = C.run_lines(exe, [f"I 1 {enc_l([l for l, _ in fl])} {enc_l([v for _, v in fl])} {enc_l(lm['vars'])} {enc_s(lm['body'])}"])
-            print('model (database order):', model_outcome(m[0]))
+            mo = model_outcome(m[0])
+            print('model (database order):', mo)
             print('Appendix B            :', spec_decode(fl, set(lm['vars']), ['('] + lm['labels'] + [')'] + lm['words']))
+            for s, a in impl.items():
+                x = (a or {}).get('lemmas', {}).get(lm['name'])
+                o = ('OK', x['labels'], x['steps']) if x else ('REJECT',)
+                if o != mo:
+                    print(f'DISAGREEMENT under PYTHONHASHSEED={s}: {o}')
+                    rc = 1
         return rc
     return 0
